@@ -84,8 +84,51 @@ inline constexpr bool is_sut_v = false;
 template <typename C, size_t N, typename Tr>
 inline constexpr bool is_sut_v<etl::basic_inplace_string<C, N, Tr>> = true;
 
+// single-pass input iterator over a counted character range
+template <typename C>
+struct OnePassSource {
+    C const* p;
+    size_t n;
+    size_t pos;
+};
+
+struct OnePassTag : std::input_iterator_tag, etl::input_iterator_tag { };
+
+template <typename C>
+struct OnePassIt {
+    using iterator_category = OnePassTag;
+    using value_type        = C;
+    using difference_type   = std::ptrdiff_t;
+    using pointer           = C const*;
+    using reference         = C const&;
+
+    OnePassSource<C>* src = nullptr;
+
+    auto operator*() const -> reference { return src->p[src->pos]; }
+
+    auto operator++() -> OnePassIt&
+    {
+        ++src->pos;
+        return *this;
+    }
+
+    auto operator++(int) -> OnePassIt
+    {
+        auto t = *this;
+        ++src->pos;
+        return t;
+    }
+
+    [[nodiscard]] auto at_end() const -> bool { return src == nullptr || src->pos >= src->n; }
+
+    friend auto operator==(OnePassIt const& a, OnePassIt const& b) -> bool { return a.at_end() == b.at_end() && (a.at_end() || a.src == b.src); }
+
+    friend auto operator!=(OnePassIt const& a, OnePassIt const& b) -> bool { return !(a == b); }
+};
+
 // every string modifier that returns basic_string& returns *this (calls can be chained): checked by address
 inline bool g_selfRef = true;
+inline int g_predCalls = 0; // state of the counting erase_if predicate (outside the function object: it may be copied)
 
 template <typename S, typename R>
 void self_ref(S& s, R&& r)
@@ -100,6 +143,7 @@ void self_ref(S& s, R&& r)
 template <typename Str, typename View>
 auto apply_mut(int kind, int var, Str& s, Args<Str, View> const& A) -> long
 {
+    using C = typename Str::value_type;
     switch (kind) {
     case K_SET:
         switch (var) {
@@ -138,6 +182,13 @@ auto apply_mut(int kind, int var, Str& s, Args<Str, View> const& A) -> long
         case 11: self_ref(s, s += *A.other); break;
         case 12: s.push_back(A.ch); break;
         case 13: self_ref(s, s.append(A.view, A.pos2)); break;
+        case 15: {
+            // a genuine single-pass input iterator (copies share one consumable source, like istream_iterator): the
+            // range can be traversed once only
+            OnePassSource<C> src{A.ptr, A.len, 0};
+            self_ref(s, s.append(OnePassIt<C>{&src}, OnePassIt<C>{}));
+            break;
+        }
         default: self_ref(s, s.append(*A.other, A.pos2)); break;
         }
         return -1;
@@ -203,6 +254,17 @@ auto apply_mut(int kind, int var, Str& s, Args<Str, View> const& A) -> long
         if (var == 0) {
             return static_cast<long>(erase(s, A.ch));
         }
+        if (var == 2) {
+            // a predicate with (external) state: it accepts every second match, so each character has to be shown to it
+            // exactly once and in order
+            g_predCalls = 0;
+            return static_cast<long>(erase_if(s, [c = A.ch](auto x) {
+                if (x >= c) {
+                    return ++g_predCalls % 2 == 1;
+                }
+                return false;
+            }));
+        }
         return static_cast<long>(erase_if(s, [c = A.ch](auto x) { return x >= c; }));
     case K_PLUS:
         switch (var) {
@@ -217,7 +279,7 @@ auto apply_mut(int kind, int var, Str& s, Args<Str, View> const& A) -> long
     }
 }
 
-constexpr int kMutVariants[] = {9, 4, 15, 9, 5, 9, 2, 1, 1, 2, 5, 2, 5};
+constexpr int kMutVariants[] = {9, 4, 16, 9, 5, 9, 2, 1, 1, 2, 5, 3, 5};
 
 // ------------------------------------------------------------------------------------------------ generic observers
 #define SIM_SEARCH(fn)                                                                                                 \
